@@ -5,7 +5,8 @@
      - for LBFGSDirection (every LBFGSParams, CBFGS, rescale_on_step_size_changes, every initial provider state): NO hypothesis on the direction;
      - for NoopDirection;
      - for AndersonDirection (memory >= 1; started from the provider as constructed, or as an earlier solve left it);
-     - for StructuredLBFGSDirection (memory >= 1, the capability checks of initialize, CBFGS off; every other parameter).
+     - for StructuredLBFGSDirection: NO hypothesis on the direction either (memory < 1, a failing capability check of initialize and
+       CBFGS make a provider call throw; a run in which a call throws has no result).
    for both values of update_direction_from_prox_step.
    Ingredients: the refinement theorem ZeroFprDirProofs.zerofprD_refines_R, ZeroFPR's inner contract with dimensions
    (ZeroFprLen.zerofpr_inner_contract_len, whose direction-length hypothesis is discharged by ZeroFprDirLen.zerofprD_trace_len), and
@@ -218,9 +219,6 @@ Section Shipped.
   Theorem alm_zerofpr_struclbfgs_converged_is_kkt pw (LP : Lbfgs.params R) slb sub sl1 Dlb Dub
       prov_inactive prov_hess_L prov_hess_psi prov_box_D prov_grad_gi
       grad_psi_at hess_L_prod hess_psi_prod eval_g grad_gi cbrt_eps hvf fd full_aug use_scaled :
-    (1 <= p_memory LP)%nat ->
-    struct_init_ok prov_inactive prov_hess_L prov_hess_psi prov_box_D prov_grad_gi hvf fd full_aug = true ->
-    cbfgs_on LP = false ->
     forall (d0 : sdstate (T:=R)) outer_fuel nanv Σ0 y0 x0 co,
     length x0 = n -> length y0 = m ->
     Alm.p_max_iter AP <> 0%nat ->
@@ -233,10 +231,10 @@ Section Shipped.
     f_status (co_final co) = Converged ->
     kkt_point Pb Clb Cub n m (p_tol AP) (p_dual_tol AP) (co_x co) (f_y (co_final co)).
   Proof.
-    intros H1 H2 H3 d0 outer_fuel nanv Σ0 y0 x0 co.
+    intros d0 outer_fuel nanv Σ0 y0 x0 co.
     exact (generic (sdstate (T:=R)) _ (fun _ => True) (SIv n LP)
-             (struct_len n pw LP slb sub sl1 Dlb Dub prov_inactive prov_hess_L prov_hess_psi prov_box_D prov_grad_gi
-                         grad_psi_at hess_L_prod hess_psi_prod eval_g grad_gi cbrt_eps hvf fd full_aug use_scaled H1 H2 H3)
+             (struct_len_all n pw LP slb sub sl1 Dlb Dub prov_inactive prov_hess_L prov_hess_psi prov_box_D prov_grad_gi
+                             grad_psi_at hess_L_prod hess_psi_prod eval_g grad_gi cbrt_eps hvf fd full_aug use_scaled)
              d0 outer_fuel nanv Σ0 y0 x0 co (or_introl I)).
   Qed.
 End Shipped.
